@@ -278,6 +278,43 @@ pub fn run_c06(a: &Args, out: &PathBuf) -> Value {
         let code = for_type!(s, S, { <S as HasShapeType>::shapetype() as i32 });
         traces[0].emit(json!({"ev": "statictype", "S": s, "code": code}));
     }
+    // the complete Reader: generic read() against typed read_as::<S, Record>(), also when the .dbf holds one row more
+    // than there are shapes and that row cannot be parsed (neither read needs it)
+    {
+        use crate::cmd_reader::{make_file, row_index};
+        let mut r = crate::rng::Rng::new(a.num("seed", 1) ^ 0xc06);
+        for (j, &t) in ALL_TYPES.iter().enumerate() {
+            let n = 1 + r.below(3);
+            let f = make_file(&c, &mut r, t, n, false);
+            for extra in [false, true] {
+                let mut dbf = f.dbf.clone();
+                if extra && dbf.len() > 32 {
+                    let rows = u32::from_le_bytes([dbf[4], dbf[5], dbf[6], dbf[7]]) + 1;
+                    dbf[4..8].copy_from_slice(&rows.to_le_bytes());
+                    let reclen = u16::from_le_bytes([dbf[10], dbf[11]]) as usize;
+                    if dbf.last() == Some(&0x1a) { dbf.pop(); }
+                    let mut row = vec![b' '];
+                    row.extend(std::iter::repeat(b'x').take(reclen - 1));      // letters where a number is declared
+                    dbf.extend_from_slice(&row);
+                    dbf.push(0x1a);
+                }
+                let open = || -> Result<Reader<Cursor<Vec<u8>>, Cursor<Vec<u8>>>, Error> {
+                    let sr = ShapeReader::with_shx(Cursor::new(f.shp.clone()), Cursor::new(f.shx.clone()))?;
+                    Ok(Reader::new(sr, shapefile::dbase::Reader::new(Cursor::new(dbf.clone()))?))
+                };
+                let pairs = |v: Result<Result<Vec<(i32, i64)>, Error>, String>| match v {
+                    Ok(Ok(p)) => json!({"err": "", "pairs": p.iter().map(|(a, b)| json!([a, b])).collect::<Vec<_>>()}),
+                    Ok(Err(e)) => json!({"err": err_json(&e)["err"], "pairs": []}),
+                    Err(_) => json!({"err": "panic", "pairs": []}),
+                };
+                let generic = pairs(guarded(|| open().and_then(|mut rd| rd.read()).map(|v| v.iter().map(|(s, rec)| (variant_code(s), row_index(rec))).collect())));
+                let typed = pairs(guarded(|| for_type!(t, S, {
+                    open().and_then(|mut rd| rd.read_as::<S, shapefile::dbase::Record>()).map(|v| v.into_iter().map(|(s, rec)| (variant_code(&Shape::from(s)), row_index(&rec))).collect())
+                })));
+                traces[j % chunks].run(json!({"ev": "typedpairs", "t": t, "n": n, "extraRow": extra, "generic": generic, "typed": typed}));
+            }
+        }
+    }
     let mut k = 0usize;
     for line in lines {
         if line.trim().is_empty() {
